@@ -99,7 +99,7 @@ Lemma Q_idle s evs0 s' evs : idle s evs0 = (s', evs) ->
   (forall f e now, ~ In (Took f e now) evs0) -> Q s evs s'.
 Proof.
   unfold idle. intros H N I.
-  destruct (zombie s); inversion H; subst; clear H.
+  destruct (zombie s && negb (fast_nonempty s) && negb (queue_nonempty s)); inversion H; subst; clear H.
   - split; [destruct s; unf; exact I|]. split; [destruct s; rrefl|].
     intros f e now H. apply in_app_or in H. destruct H as [H|[H|[]]]; [exfalso; eapply N; eauto | discriminate].
   - split; [exact I|]. split; [apply R_refl|]. intros f e now H. exfalso; eapply N; eauto.
@@ -203,8 +203,9 @@ Proof.
            destruct (Q_dequeue _ _ _ _ ED I0 F0) as [I2 [R2 [B2 T2]]].
            assert (R s s2) by (destruct s; unf; exact R2).
            assert (s1 = s2 /\ forall f0 e0 now0, In (Took f0 e0 now0) evs -> f0 = FromQueue /\ e0 = e).
-           { destruct (filt (snd e)); inversion H; subst; (split; [reflexivity|]);
-               intros ? ? ? [K|[K|[]]]; inversion K; auto. }
+           { apply finish_cases in H. destruct H as [-> [x [-> K0]]]. split; [reflexivity|].
+             intros ? ? ? [K|[K|[]]]; [inversion K; auto|].
+             destruct K0 as [[? [-> _]]|[[? [-> _]]|[? [-> _]]]]; discriminate. }
            destruct H1 as [-> HT]. split; [exact I2|]. split; [exact H0|].
            intros f0 e0 now0 K. apply HT in K. destruct K as [-> ->]. split; assumption.
         -- destruct (idle s2 []) as [s3 ev3] eqn:EI. intro H; inversion H; subst. intro I.
@@ -248,8 +249,9 @@ Proof.
         eapply Q_idle; eauto.
   - intros H I.
     assert (s1 = set_fast s fr /\ forall f0 e0 now0, In (Took f0 e0 now0) evs -> f0 = FromFast /\ e0 = e).
-    { destruct (filt (snd e)); inversion H; subst; (split; [reflexivity|]);
-        intros ? ? ? [K|[K|[]]]; inversion K; auto. }
+    { apply finish_cases in H. destruct H as [-> [x [-> K0]]]. split; [reflexivity|].
+      intros ? ? ? [K|[K|[]]]; [inversion K; auto|].
+      destruct K0 as [[? [-> _]]|[[? [-> _]]|[? [-> _]]]]; discriminate. }
     destruct H0 as [-> HT].
     destruct s as [h n l lj f lt lp z ac op dd nx]. unfold INV, R, qpending in *. cbn in *. subst f.
     destruct I as [Ih [In_ [Il [Bf [Bh [Bn [Bl [Of [Oh [On Ol]]]]]]]]]].
